@@ -844,7 +844,10 @@ class StaticGenerativeFunction(Generic[R], GenerativeFunction[R]):
             ),
         ) = update_transform(self.source)(key, trace, constraint, argdiffs)
         if not Diff.static_check_tree_diff(retval_diffs):
-            retval_diffs = Diff.no_change(retval_diffs)
+            # constant (non-Diff) leaves are unchanged; Diff leaves keep their own tags
+            retval_diffs = Diff.tree_diff(
+                Diff.tree_primal(retval_diffs), Diff.tree_tangent(retval_diffs)
+            )
 
         def make_bwd_request(traces, subconstraints):
             addresses = traces.keys()
@@ -884,7 +887,10 @@ class StaticGenerativeFunction(Generic[R], GenerativeFunction[R]):
             ),
         ) = static_edit_request_transform(self.source)(key, trace, addressed, argdiffs)
         if not Diff.static_check_tree_diff(retval_diffs):
-            retval_diffs = Diff.no_change(retval_diffs)
+            # constant (non-Diff) leaves are unchanged; Diff leaves keep their own tags
+            retval_diffs = Diff.tree_diff(
+                Diff.tree_primal(retval_diffs), Diff.tree_tangent(retval_diffs)
+            )
 
         def make_bwd_request(
             traces: dict[StaticAddress, Trace[R]],
@@ -928,7 +934,10 @@ class StaticGenerativeFunction(Generic[R], GenerativeFunction[R]):
             key, trace, selection, edit_request, argdiffs
         )
         if not Diff.static_check_tree_diff(retval_diffs):
-            retval_diffs = Diff.no_change(retval_diffs)
+            # constant (non-Diff) leaves are unchanged; Diff leaves keep their own tags
+            retval_diffs = Diff.tree_diff(
+                Diff.tree_primal(retval_diffs), Diff.tree_tangent(retval_diffs)
+            )
 
         def make_bwd_request(
             traces: dict[StaticAddress, Trace[R]],
